@@ -19,8 +19,9 @@ import (
 	"github.com/ipfs/go-unixfsnode/hamt"
 	dagpb "github.com/ipld/go-codec-dagpb"
 	"github.com/ipld/go-ipld-prime"
-	_ "github.com/ipld/go-ipld-prime/codec/dagcbor"
+	"github.com/ipld/go-ipld-prime/codec/dagcbor"
 	"github.com/ipld/go-ipld-prime/datamodel"
+	"github.com/ipld/go-ipld-prime/fluent/qp"
 	cidlink "github.com/ipld/go-ipld-prime/linking/cid"
 	"github.com/ipld/go-ipld-prime/node/basicnode"
 	"github.com/multiformats/go-multihash"
@@ -48,6 +49,71 @@ func (h *hostile) missingCid() cid.Cid {
 	return cid.NewCidV1(codec, mh)
 }
 
+// cborValue builds a random small dag-cbor value of any kind; maps and lists
+// nest one level and may hold links to stored blocks.
+func cborValue(r *rand.Rand, st *store.Store, depth int) datamodel.Node {
+	k := r.Intn(10)
+	if depth >= 2 && k >= 6 {
+		k = r.Intn(6)
+	}
+	switch k {
+	case 0:
+		return basicnode.NewInt(int64(r.Intn(7)) - 2)
+	case 1:
+		b := make([]byte, r.Intn(6))
+		r.Read(b)
+		return basicnode.NewBytes(b)
+	case 2:
+		return basicnode.NewString([]string{"", "a", "Hash", "00"}[r.Intn(4)])
+	case 3:
+		return datamodel.Null
+	case 4:
+		return basicnode.NewBool(r.Intn(2) == 0)
+	case 5:
+		return basicnode.NewLink(cidlink.Link{Cid: st.PutBlock(1, cid.Raw, []byte{byte(r.Intn(4))})})
+	case 6, 7:
+		n, err := qp.BuildList(basicnode.Prototype.Any, -1, func(la datamodel.ListAssembler) {
+			for i := r.Intn(4); i > 0; i-- {
+				qp.ListEntry(la, qp.Node(cborValue(r, st, depth+1)))
+			}
+		})
+		if err != nil {
+			return datamodel.Null
+		}
+		return n
+	default:
+		keys := []string{"Hash", "Name", "Tsize", "Data", "Links", "x"}
+		mon.Shuffle(r, keys)
+		n, err := qp.BuildMap(basicnode.Prototype.Any, -1, func(ma datamodel.MapAssembler) {
+			for _, k := range keys[:r.Intn(4)] {
+				qp.MapEntry(ma, k, qp.Node(cborValue(r, st, depth+1)))
+			}
+		})
+		if err != nil {
+			return datamodel.Null
+		}
+		return n
+	}
+}
+
+// cborShape encodes a dag-cbor block that looks like a node with Data and
+// Links fields of arbitrary kinds.
+func cborShape(r *rand.Rand, st *store.Store) []byte {
+	n, err := qp.BuildMap(basicnode.Prototype.Any, -1, func(ma datamodel.MapAssembler) {
+		if r.Intn(4) != 0 {
+			qp.MapEntry(ma, "Data", qp.Node(cborValue(r, st, 1)))
+		}
+		if r.Intn(6) != 0 {
+			qp.MapEntry(ma, "Links", qp.Node(cborValue(r, st, 0)))
+		}
+	})
+	var buf bytes.Buffer
+	if err != nil || dagcbor.Encode(n, &buf) != nil {
+		return []byte{0xa0}
+	}
+	return buf.Bytes()
+}
+
 func (h *hostile) leaf() cid.Cid {
 	switch h.r.Intn(7) {
 	case 0, 1:
@@ -66,6 +132,9 @@ func (h *hostile) leaf() cid.Cid {
 			{0xa1, 0x65, 'L', 'i', 'n', 'k', 's', 0x81, 0x01}, // {"Links": [1]}
 			{0xa1, 0x65, 'L', 'i', 'n', 'k', 's', 0x81, 0xa0}, // {"Links": [{}]}
 			{0xf6}, // null
+		}
+		if h.r.Intn(2) == 0 {
+			return h.st.PutBlock(1, cid.DagCBOR, cborShape(h.r, h.st))
 		}
 		return h.st.PutBlock(1, cid.DagCBOR, cb[h.r.Intn(len(cb))])
 	default:
